@@ -181,6 +181,12 @@ func (h *FBDNSDB) ServeDNSWithRCODE(ctx context.Context, w dns.ResponseWriter, r
 		if len(r.Question) > 0 {
 			a.Question = []dns.Question{r.Question[0]}
 		}
+		// echo the client-subnet option (scope 0: no lookup was made) in the OPT of the BADVERS reply
+		if ecs = db.FindECS(r); ecs != nil {
+			if o := a.IsEdns0(); o != nil {
+				o.Option = append(o.Option, ecs)
+			}
+		}
 		return h.writeAndLog(state, a, ecs)
 	}
 
